@@ -775,3 +775,69 @@ func visitorFold(c *Ctx, info, hinfo *types.Info, hd *ast.FuncDecl, operand type
 	}
 	return "skip: the function handed to " + hd.Name.Name + " does not apply the expected operation to the element it visits"
 }
+
+// checkResetCompleteness: RemoveAll takes a collection back to its state at birth.  Every field
+// that some other method assigns (a counter, a flag, a cache, a replaced container) is part of
+// that state; a field of this kind that RemoveAll - directly or through an unexported method it
+// calls - does not assign keeps its old value into the collection's next life.
+func checkResetCompleteness(c *Ctx, r *Rec, rule string, n *types.Named) {
+	if n == nil {
+		return
+	}
+	role := c.roleOf(n.Obj().Pkg())
+	ms := c.methodsOf(n)
+	reset := ms["RemoveAll"]
+	st := structOf(n)
+	if reset == nil || reset.Body == nil || st == nil {
+		return
+	}
+	// RemoveAll and the unexported methods it reaches
+	cg := c.sameTypeCallGraph(n)
+	inReset := map[string]bool{"RemoveAll": true}
+	for work := []string{"RemoveAll"}; len(work) > 0; {
+		cur := work[0]
+		work = work[1:]
+		for callee := range cg[cur] {
+			if !inReset[callee] && !ast.IsExported(callee) {
+				inReset[callee] = true
+				work = append(work, callee)
+			}
+		}
+	}
+	fw := c.fieldWrites()
+	for i := 0; i < st.NumFields(); i++ {
+		f := st.Field(i)
+		var elsewhere *fieldWrite
+		resetHere := false
+		for wi := range fw[f.Origin()] {
+			w := fw[f.Origin()][wi]
+			if w.In == nil || w.In.Recv == nil || !(strings.HasPrefix(w.How, "assigned") || strings.HasPrefix(w.How, "stepped")) {
+				continue
+			}
+			if rn := recvNamedOfDecl(c, w.In); rn == nil || rn.Origin() != n.Origin() {
+				continue
+			}
+			if inReset[w.In.Name.Name] {
+				resetHere = true
+			} else if elsewhere == nil {
+				elsewhere = &fw[f.Origin()][wi]
+			}
+		}
+		if elsewhere == nil {
+			continue
+		}
+		construct := role + "." + n.Obj().Name() + "." + f.Name()
+		if resetHere {
+			r.ok(rule, construct, c.pos(f.Pos()), "assigned by other methods and assigned again by RemoveAll")
+		} else {
+			r.fail(rule, construct, c.pos(elsewhere.Pos), fmt.Sprintf("the field is %s in %s but RemoveAll does not assign it: after RemoveAll the collection starts its next life with the old %s", elsewhere.How, elsewhere.In.Name.Name, f.Name()))
+		}
+	}
+}
+
+func recvNamedOfDecl(c *Ctx, fd *ast.FuncDecl) *types.Named {
+	if fn := c.funcOf(fd); fn != nil {
+		return recvNamed(fn)
+	}
+	return nil
+}
